@@ -310,12 +310,17 @@ example (nested : Nested) :
   obtain ⟨_, _, _, _, _, _, _, _, _, _, hem⟩ := hsat _ haud (hall _ haud)
   exact hem "audited" (by decide)
 
-/-! ## known finding C01-F2: a default replaced by an equal value of another type
+/-! ## C01-F2 (repaired): a default replaced by an equal value of another type
 
-`update_value` compares with Python's `old != new`, and `True == 1`: when an upstream node replaces
-the signature default `1` of a fed parameter by `True`, the version of the name does not advance and
-its consumers are not re-run.  The graph violates `NoFallbackOnFedParam` (the parameter `a` of `B` is
-fed by `A` AND has a default), which is why `dag_run` does not apply; every other hypothesis holds. -/
+`update_value` used to compare with Python's `old != new` alone, and `True == 1`: when an upstream node
+replaced the signature default `1` of a fed parameter by `True`, the version of the name did not
+advance and its consumers were not re-run (`equal_other_type_no_rerun_witness`, stated on the
+pre-repair step `stepSyncPyEq`).  The repaired test `type(old) is not type(new) or old != new`
+(`GState.bumps`) advances the version and the consumer IS re-run (`equal_other_type_rerun`).
+The graph violates `NoFallbackOnFedParam` (the parameter `a` of `B` is fed by `A` AND has a default),
+which is why `dag_run` does not apply; every other hypothesis holds.
+
+The type test is top-level only: one wrapping level defeats it (`equal_nested_no_rerun_witness`). -/
 
 /-- `A(x) -> a` returns its argument -/
 def f2A : NodeSpec := { name := "A", kind := .fn, params := [("x", .none)], dataOuts := ["a"], body := .first }
@@ -331,20 +336,70 @@ def f2G : GraphD := elabGraph [] f2Spec
 def f2Values : AL Val := [("x", .bool true)]
 def f2Level : Name → Nat := fun n => if n = "A" then 0 else if n = "B" then 1 else 2
 
-/-- after superstep 0 (`A` on `x`, `B` on its default — `a` was not there yet) -/
+/-- after superstep 0 (`A` on `x`, `B` on its default — `a` was not there yet); every name written so
+far is new, so this state is the same before and after the repair -/
 def f2Mid : GState :=
   { values := [("x", .bool true), ("a", .bool true), ("b", .int 1)]
     versions := [("x", 1), ("a", 1), ("b", 1)]
     execs := [("A", { inputVersions := [("x", 1)], waitForVersions := [] }),
               ("B", { inputVersions := [("a", 0)], waitForVersions := [] })] }
 
-/-- after superstep 1 (`B` again, on `a = True`; `C` on the snapshot's `b = 1`): quiescent -/
-def f2Final : GState :=
+/-- PRE-REPAIR, after superstep 1 (`B` again, on `a = True`; `C` on the snapshot's `b = 1`): `b` is
+still at version 1, quiescent -/
+def f2FinalPyEq : GState :=
   { values := [("x", .bool true), ("a", .bool true), ("b", .bool true), ("c", Val.mkTup [.str "C", .int 1])]
     versions := [("x", 1), ("a", 1), ("b", 1), ("c", 1)]
     execs := [("A", { inputVersions := [("x", 1)], waitForVersions := [] }),
               ("B", { inputVersions := [("a", 1)], waitForVersions := [] }),
               ("C", { inputVersions := [("b", 1)], waitForVersions := [] })] }
+
+/-- repaired, after superstep 1: the same values, but `b` is at version 2 — `C` (which recorded `b`@1)
+is stale -/
+def f2Mid2 : GState :=
+  { values := [("x", .bool true), ("a", .bool true), ("b", .bool true), ("c", Val.mkTup [.str "C", .int 1])]
+    versions := [("x", 1), ("a", 1), ("b", 2), ("c", 1)]
+    execs := [("A", { inputVersions := [("x", 1)], waitForVersions := [] }),
+              ("B", { inputVersions := [("a", 1)], waitForVersions := [] }),
+              ("C", { inputVersions := [("b", 1)], waitForVersions := [] })] }
+
+/-- repaired, after superstep 2 (`C` again, on `b = True`): quiescent.  (`c` keeps version 1:
+`("C", 1)` and `("C", True)` are both tuples and Python-equal; nothing consumes `c` here.) -/
+def f2Final : GState :=
+  { values := [("x", .bool true), ("a", .bool true), ("b", .bool true), ("c", Val.mkTup [.str "C", .bool true])]
+    versions := [("x", 1), ("a", 1), ("b", 2), ("c", 1)]
+    execs := [("A", { inputVersions := [("x", 1)], waitForVersions := [] }),
+              ("B", { inputVersions := [("a", 1)], waitForVersions := [] }),
+              ("C", { inputVersions := [("b", 2)], waitForVersions := [] })] }
+
+/-- PRE-REPAIR `run_superstep_sync`, kept for the negative witness: `stepSync` verbatim, except that
+outputs are applied with `applyOutputsPyEq` (version test `bumpsPyEq`: `old != new` alone) -/
+def stepSyncPyEq (nested : Nested) (sem : Sem) (gi : Nat) (g : GraphD) (runSpan : Span) (k : Nat)
+    (s : GState) : List NodeD → GState → List Log → StepOut
+  | [], ns, log => .ok ns log
+  | nd :: rest, ns, log =>
+    match collectInputs g s nd nd.inputs with
+    | .none => .fail (.keyError nd.name) s log
+    | some inputs =>
+      let sp := nodeSpanOf runSpan k nd
+      let startEv := Log.ev { kind := "NodeStart", span := sp, parent := some runSpan, name := nd.name }
+      let out := execNode nested sem gi nd inputs ns sp
+      let ns1 := match out.dec with
+        | some d => { ns with decisions := AL.put ns.decisions nd.name d }
+        | .none => ns
+      match out.pause with
+      | some p =>
+        .pause p s (log ++ [startEv] ++ out.log ++
+          [.ev { kind := "NodeError", span := sp, parent := some runSpan, name := nd.name }])
+      | .none =>
+        match out.res with
+        | .error e =>
+          .fail e ns1 (log ++ [startEv] ++ out.log ++
+            [.ev { kind := "NodeError", span := sp, parent := some runSpan, name := nd.name }])
+        | .ok outs =>
+          let ns2 := recordExec s (ns1.applyOutputsPyEq outs) nd
+          stepSyncPyEq nested sem gi g runSpan k s rest ns2
+            (log ++ [startEv] ++ out.log ++ routeEvent runSpan k nd ns1 ++
+              [.ev { kind := "NodeEnd", span := sp, parent := some runSpan, name := nd.name }])
 
 theorem f2_semTotal : SemTotal bodySem f2G := by
   intro nd hn args
@@ -360,10 +415,11 @@ theorem f2_semTotal : SemTotal bodySem f2G := by
   obtain ⟨outs, ho⟩ := wrapOutputs_isSome_of_le_one nd v h
   exact ⟨v, outs, hv, ho⟩
 
-/-- the consumer's output in `f2Final` is NOT its function applied to the input it would collect there -/
-theorem f2_not_holds : ¬ Holds bodySem f2G f2Final (elabNode [] f2C) := by
+/-- PRE-REPAIR: the consumer's output in `f2FinalPyEq` is NOT its function applied to the input it would
+collect there -/
+theorem f2_not_holds : ¬ Holds bodySem f2G f2FinalPyEq (elabNode [] f2C) := by
   rintro ⟨args, v, outs, hc, hv, hw, ho⟩
-  have e1 : collectInputs f2G f2Final (elabNode [] f2C) (elabNode [] f2C).inputs =
+  have e1 : collectInputs f2G f2FinalPyEq (elabNode [] f2C) (elabNode [] f2C).inputs =
       some [("b", .bool true)] := by decide
   rw [e1] at hc
   cases hc
@@ -379,60 +435,216 @@ theorem f2_not_holds : ¬ Holds bodySem f2G f2Final (elabNode [] f2C) := by
   revert this
   decide
 
-/-- KNOWN FINDING C01-F2 (negative witness; confirmed on the real library).  The three-node program
-`A(x) -> a`, `B(a = 1) -> b`, `C(b) -> c = ("C", b)` run with `x = True` under the sync step function:
+/-- repaired: every node of `f2G` holds its function's result on its final input in `f2Final` -/
+theorem f2_holds : ∀ nd ∈ f2G.nodes, Holds bodySem f2G f2Final nd := by
+  intro nd hn
+  have : nd = elabNode [] f2A ∨ nd = elabNode [] f2B ∨ nd = elabNode [] f2C := by
+    simpa [f2G, elabGraph, f2Spec] using hn
+  rcases this with rfl | rfl | rfl
+  · exact ⟨[("x", .bool true)], .bool true, [("a", .bool true)], by decide, rfl, by decide, by decide⟩
+  · exact ⟨[("a", .bool true)], .bool true, [("b", .bool true)], by decide, rfl, by decide, by decide⟩
+  · exact ⟨[("b", .bool true)], Val.mkTup [.str "C", .bool true], [("c", Val.mkTup [.str "C", .bool true])],
+      by decide, rfl, by decide, by decide⟩
+
+/-- repaired: the final state of the run IS dependency-order evaluation -/
+theorem f2_evalSpec : evalSpec bodySem f2G f2Values f2Final := by
+  have hall := satisfiable_of_covered (g := f2G) (values := f2Values) (level := f2Level) (by decide) (by decide)
+  refine ⟨?_, fun nd hn _ => f2_holds nd hn, fun nd hn h => absurd (hall nd hn) h⟩
+  intro p hp
+  have hA : elabNode [] f2A ∈ f2G.nodes := by simp [f2G, elabGraph, f2Spec]
+  have hB : elabNode [] f2B ∈ f2G.nodes := by simp [f2G, elabGraph, f2Spec]
+  have hC : elabNode [] f2C ∈ f2G.nodes := by simp [f2G, elabGraph, f2Spec]
+  have ha : p ≠ "a" := by
+    intro e; subst e; exact hp _ hA (by decide)
+  have hb : p ≠ "b" := by
+    intro e; subst e; exact hp _ hB (by decide)
+  have hc : p ≠ "c" := by
+    intro e; subst e; exact hp _ hC (by decide)
+  have hi : (initState f2Values).values = [("x", .bool true)] := by decide
+  rw [hi]
+  simp [f2Final, AL.get?, ha, hb, hc]
+
+/-- C01-F2, NEGATIVE WITNESS ON THE PRE-REPAIR STEP (the behaviour was confirmed on the real library before
+the repair).  The three-node program `A(x) -> a`, `B(a = 1) -> b`, `C(b) -> c = ("C", b)` run with
+`x = True` under the pre-repair sync step function `stepSyncPyEq` (version test `bumpsPyEq`):
 
 * superstep 0 runs `A` and `B` — `B` is ready on its signature default, `a` is not in the state yet —
-  and leaves `a = True`, `b = 1`;
+  and leaves `a = True`, `b = 1` (only new names are written: the same as after the repair);
 * superstep 1 re-runs `B` (its input `a` went from version 0 to 1) and runs `C` on the superstep's
-  snapshot `b = 1`; `B` now writes `b = True`, but `1 == True` in Python, so `update_value` does NOT
-  advance the version of `b` (`bumps = false`, whereas the structural test `bumpsStructural` would);
+  snapshot `b = 1`; `B` now writes `b = True`, but `1 == True` in Python, so the pre-repair
+  `update_value` did NOT advance the version of `b` (`bumpsPyEq = false`, whereas the repaired test
+  `bumps` and the structural test `bumpsStructural` do);
 * the scheduler is quiescent: `C` recorded `b`@1 and `b` is still @1.
 
-The run COMPLETES with `b = True` but `c = ("C", 1)`: the consumer was not re-run (`C` is called exactly
-once, on `1`), so the run does NOT equal dependency-order evaluation, which gives `c = ("C", True)`: `C`
-is satisfiable but does not hold its function's result on its final input, and the final state
-violates `evalSpec`.  Every hypothesis of `dag_run` except `NoFallbackOnFedParam` holds.  Control: with
-`x = 2` (a value Python tells apart from `1`) the consumer IS re-run. -/
+The loop is DONE after 2 supersteps with `b = True` but `c = ("C", 1)`: the consumer was not re-run (`C`
+is called exactly once, on `1`), so the run did NOT equal dependency-order evaluation, which gives
+`c = ("C", True)`: `C` is satisfiable but does not hold its function's result on its final input, and the
+final state violates `evalSpec`.  Every hypothesis of `dag_run` except `NoFallbackOnFedParam` holds. -/
 theorem equal_other_type_no_rerun_witness :
+    -- the two pre-repair supersteps, one by one, and the loop
+    (∀ nested : Nested,
+      ({} : GState).applyOutputsPyEq f2Values = initState f2Values ∧
+      (ready f2G .none (initState f2Values)).1 = [elabNode [] f2A, elabNode [] f2B] ∧
+      (∃ log, stepSyncPyEq nested bodySem 0 f2G ["r"] 0 (initState f2Values) [elabNode [] f2A, elabNode [] f2B]
+        (initState f2Values) [] = .ok f2Mid log) ∧
+      (ready f2G .none f2Mid).1 = [elabNode [] f2B, elabNode [] f2C] ∧
+      (∃ log, stepSyncPyEq nested bodySem 0 f2G ["r"] 1 f2Mid [elabNode [] f2B, elabNode [] f2C] f2Mid [] =
+        .ok f2FinalPyEq log) ∧
+      (ready f2G .none f2FinalPyEq).1 = [] ∧
+      (∃ log, runLoop (fun k s rs => stepSyncPyEq nested bodySem 0 f2G ["r"] k s rs s []) f2G .none 1000 1000 0
+          (initState f2Values) [] = .done f2FinalPyEq log 2 ∧
+        callsOf log =
+          [("0:A", [("x", .bool true)]), ("0:B", [("a", .int 1)]), ("0:B", [("a", .bool true)]),
+           ("0:C", [("b", .int 1)])])) ∧
+    -- the cause: writing `True` over `1` was no new version (it is one now)
+    (f2Mid.bumpsPyEq "b" (.bool true) = false ∧ f2Mid.bumps "b" (.bool true) = true ∧
+      f2Mid.bumpsStructural "b" (.bool true) = true) ∧
+    (f2Mid.updateValuePyEq "b" (.bool true)).ver "b" = 1 ∧
+    -- the outcome is not dependency-order evaluation
+    AL.get? f2FinalPyEq.values "b" = some (.bool true) ∧
+    AL.get? f2FinalPyEq.values "c" = some (Val.mkTup [.str "C", .int 1]) ∧
+    bodySem (elabNode [] f2C) [("b", .bool true)] = .val (Val.mkTup [.str "C", .bool true]) ∧
+    Satisfiable f2G f2Values (elabNode [] f2C) ∧
+    ¬ Holds bodySem f2G f2FinalPyEq (elabNode [] f2C) ∧
+    ¬ evalSpec bodySem f2G f2Values f2FinalPyEq ∧
+    -- which hypothesis of `dag_run` fails
+    (AllFn f2G ∧ NoWaitFor f2G ∧ WellDefaulted f2G ∧ UniqueProducers f2G ∧ Levelled f2G f2Level ∧
+      SemTotal bodySem f2G ∧ ¬ NoFallbackOnFedParam f2G f2Values) := by
+  have hC : elabNode [] f2C ∈ f2G.nodes := by simp [f2G, elabGraph, f2Spec]
+  have hsat : Satisfiable f2G f2Values (elabNode [] f2C) :=
+    satisfiable_of_covered (level := f2Level) (by decide) (by decide) _ hC
+  refine ⟨fun nested => ⟨rfl, rfl, ⟨_, rfl⟩, rfl, ⟨_, rfl⟩, by decide, ⟨_, rfl, rfl⟩⟩,
+    by decide, by decide, by decide, by decide, rfl, hsat, f2_not_holds,
+    fun h => f2_not_holds (h.2.1 _ hC hsat),
+    ⟨by decide, by decide, by decide, by decide, by decide, f2_semTotal, by decide⟩⟩
+
+/-- one successful superstep of `runLoop` -/
+theorem runLoop_step_ok {step : Nat → GState → List NodeD → StepOut} {g : GraphD} {act : Option (List Name)}
+    {mi fuel k : Nat} {s s1 ns : GState} {log l : List Log} {rs : List NodeD}
+    (hr : ready g act s = (rs, s1)) (hne : rs ≠ []) (hs : step k s1 rs = .ok ns l) :
+    runLoop step g act mi (fuel + 1) k s log = runLoop step g act mi fuel (k + 1) ns (log ++ l) := by
+  rw [runLoop, hr]
+  cases rs with
+  | nil => exact absurd rfl hne
+  | cons a t => simp only [hs]
+
+/-- `runLoop` stops on an empty ready set -/
+theorem runLoop_quiescent {step : Nat → GState → List NodeD → StepOut} {g : GraphD} {act : Option (List Name)}
+    {mi fuel k : Nat} {s s1 : GState} {log : List Log} (hr : ready g act s = ([], s1)) :
+    runLoop step g act mi (fuel + 1) k s log = .done s1 log k := by
+  rw [runLoop, hr]
+
+/-- repaired: the loop takes three supersteps -/
+theorem f2_loop (nested : Nested) :
+    ∃ log, runLoop (fun k s rs => stepSync nested bodySem 0 f2G ["r"] k s rs s []) f2G .none 1000 1000 0
+      (initState f2Values) [] = .done f2Final log 3 := by
+  obtain ⟨l0, h0⟩ : ∃ log, stepSync nested bodySem 0 f2G ["r"] 0 (initState f2Values)
+      [elabNode [] f2A, elabNode [] f2B] (initState f2Values) [] = .ok f2Mid log := ⟨_, rfl⟩
+  obtain ⟨l1, h1⟩ : ∃ log, stepSync nested bodySem 0 f2G ["r"] 1 f2Mid [elabNode [] f2B, elabNode [] f2C]
+      f2Mid [] = .ok f2Mid2 log := ⟨_, rfl⟩
+  obtain ⟨l2, h2⟩ : ∃ log, stepSync nested bodySem 0 f2G ["r"] 2 f2Mid2 [elabNode [] f2C] f2Mid2 [] =
+      .ok f2Final log := ⟨_, rfl⟩
+  have r0 : ready f2G .none (initState f2Values) =
+      ([elabNode [] f2A, elabNode [] f2B], initState f2Values) := rfl
+  have r1 : ready f2G .none f2Mid = ([elabNode [] f2B, elabNode [] f2C], f2Mid) := rfl
+  have r2 : ready f2G .none f2Mid2 = ([elabNode [] f2C], f2Mid2) := rfl
+  have r3 : ready f2G .none f2Final = ([], f2Final) := rfl
+  refine ⟨[] ++ l0 ++ l1 ++ l2, ?_⟩
+  show runLoop _ f2G .none 1000 (996 + 1 + 1 + 1 + 1) 0 _ _ = _
+  rw [runLoop_step_ok r0 (by simp) h0, runLoop_step_ok r1 (by simp) h1, runLoop_step_ok r2 (by simp) h2,
+    runLoop_quiescent r3]
+
+/-- C01-F2 REPAIRED.  The same program under the model's step function (version test `bumps`: a value of
+another type always counts as a change):
+
+* superstep 0 as before (`a = True`, `b = 1`);
+* superstep 1 re-runs `B` and runs `C` on the snapshot `b = 1`; `B` writes `b = True` over `1` — another
+  type, so the version of `b` advances to 2 (`f2Mid2`);
+* `C` recorded `b`@1 and is stale: superstep 2 re-runs it on `b = True`; then the scheduler is quiescent.
+
+The run COMPLETES with `b = True` and `c = ("C", True)`; `C` is called twice (on `1`, then on `True`) — the
+graph still violates `NoFallbackOnFedParam`, so `dag_run` (exactly-once) does not apply — and the final
+state IS dependency-order evaluation (`evalSpec`).  Control: with `x = 2` nothing changed. -/
+theorem equal_other_type_rerun :
     -- through `run()`
     (run bodySem .sync f2Prog 0 f2Values {}).status = .completed ∧
     (run bodySem .sync f2Prog 0 f2Values {}).values =
-      [("a", .bool true), ("b", .bool true), ("c", Val.mkTup [.str "C", .int 1])] ∧
+      [("a", .bool true), ("b", .bool true), ("c", Val.mkTup [.str "C", .bool true])] ∧
     callsOf (run bodySem .sync f2Prog 0 f2Values {}).log =
       [("0:A", [("x", .bool true)]), ("0:B", [("a", .int 1)]), ("0:B", [("a", .bool true)]),
-       ("0:C", [("b", .int 1)])] ∧
-    -- the two supersteps, one by one
+       ("0:C", [("b", .int 1)]), ("0:C", [("b", .bool true)])] ∧
+    -- the three supersteps, one by one
     (∀ nested : Nested,
       (ready f2G .none (initState f2Values)).1 = [elabNode [] f2A, elabNode [] f2B] ∧
       (∃ log, stepSync nested bodySem 0 f2G ["r"] 0 (initState f2Values) [elabNode [] f2A, elabNode [] f2B]
         (initState f2Values) [] = .ok f2Mid log) ∧
       (ready f2G .none f2Mid).1 = [elabNode [] f2B, elabNode [] f2C] ∧
       (∃ log, stepSync nested bodySem 0 f2G ["r"] 1 f2Mid [elabNode [] f2B, elabNode [] f2C] f2Mid [] =
-        .ok f2Final log) ∧
+        .ok f2Mid2 log) ∧
+      (ready f2G .none f2Mid2).1 = [elabNode [] f2C] ∧
+      (∃ log, stepSync nested bodySem 0 f2G ["r"] 2 f2Mid2 [elabNode [] f2C] f2Mid2 [] = .ok f2Final log) ∧
       (ready f2G .none f2Final).1 = [] ∧
       (∃ log, runLoop (fun k s rs => stepSync nested bodySem 0 f2G ["r"] k s rs s []) f2G .none 1000 1000 0
-        (initState f2Values) [] = .done f2Final log 2)) ∧
-    -- the cause: writing `True` over `1` is no new version
-    (f2Mid.bumps "b" (.bool true) = false ∧ f2Mid.bumpsStructural "b" (.bool true) = true) ∧
-    -- the outcome is not dependency-order evaluation
+        (initState f2Values) [] = .done f2Final log 3)) ∧
+    -- the cause: writing `True` over `1` is a new version
+    f2Mid.bumps "b" (.bool true) = true ∧
+    (f2Mid.updateValue "b" (.bool true)).ver "b" = 2 ∧
+    -- the outcome is dependency-order evaluation
     AL.get? f2Final.values "b" = some (.bool true) ∧
-    AL.get? f2Final.values "c" = some (Val.mkTup [.str "C", .int 1]) ∧
-    bodySem (elabNode [] f2C) [("b", .bool true)] = .val (Val.mkTup [.str "C", .bool true]) ∧
-    Satisfiable f2G f2Values (elabNode [] f2C) ∧
-    ¬ Holds bodySem f2G f2Final (elabNode [] f2C) ∧
-    ¬ evalSpec bodySem f2G f2Values f2Final ∧
-    -- which hypothesis of `dag_run` fails
-    (AllFn f2G ∧ NoWaitFor f2G ∧ WellDefaulted f2G ∧ UniqueProducers f2G ∧ Levelled f2G f2Level ∧
-      SemTotal bodySem f2G ∧ ¬ NoFallbackOnFedParam f2G f2Values) ∧
+    AL.get? f2Final.values "c" = some (Val.mkTup [.str "C", .bool true]) ∧
+    Holds bodySem f2G f2Final (elabNode [] f2C) ∧
+    evalSpec bodySem f2G f2Values f2Final ∧
+    -- `dag_run` still does not apply (the consumer ran twice)
+    ¬ NoFallbackOnFedParam f2G f2Values ∧
     -- control
     (run bodySem .sync f2Prog 0 [("x", .int 2)] {}).values =
       [("a", .int 2), ("b", .int 2), ("c", Val.mkTup [.str "C", .int 2])] := by
   have hC : elabNode [] f2C ∈ f2G.nodes := by simp [f2G, elabGraph, f2Spec]
-  have hsat : Satisfiable f2G f2Values (elabNode [] f2C) :=
-    satisfiable_of_covered (level := f2Level) (by decide) (by decide) _ hC
-  refine ⟨by decide, by decide, by decide, fun nested => ⟨rfl, ⟨_, rfl⟩, rfl, ⟨_, rfl⟩, by decide, ⟨_, rfl⟩⟩,
-    by decide, by decide, by decide, rfl, hsat, f2_not_holds, fun h => f2_not_holds (h.2.1 _ hC hsat),
-    ⟨by decide, by decide, by decide, by decide, by decide, f2_semTotal, by decide⟩, by decide⟩
+  refine ⟨by decide, by decide, by decide,
+    fun nested => ⟨rfl, ⟨_, rfl⟩, rfl, ⟨_, rfl⟩, rfl, ⟨_, rfl⟩, by decide, f2_loop nested⟩,
+    by decide, by decide, by decide, by decide, f2_holds _ hC, f2_evalSpec, by decide, by decide⟩
+
+/-! ### residual: the type test is top-level only
+
+`[1]` and `[True]`, `("C", 1)` and `("C", True)` have the same top-level type and are Python-equal: the
+repaired `update_value` still does not advance the version.  One more node `D(c) -> d = ("D", c)`
+behind `C` shows it on the very same run: `D` runs in superstep 2 on the snapshot `c = ("C", 1)` while
+`C` re-runs and writes `("C", True)` — no new version of `c`, and `D` is not re-run. -/
+
+/-- `D(c) -> d` returns the tuple `("D", c)` -/
+def f3D : NodeSpec := { name := "D", kind := .fn, params := [("c", .none)], dataOuts := ["d"], body := .tag "D" }
+def f3Spec : GraphSpec := { name := "f3", nodes := [f2A, f2B, f2C, f3D] }
+def f3Prog : Program := elabProgram [f3Spec]
+/-- `B` with the default `[1]`, run with `x = [True]` -/
+def f4B : NodeSpec :=
+  { name := "B", kind := .fn, params := [("a", some (Val.mkLst [.int 1]))], dataOuts := ["b"], body := .first }
+def f4Spec : GraphSpec := { name := "f4", nodes := [f2A, f4B, f2C] }
+def f4Prog : Program := elabProgram [f4Spec]
+
+/-- KNOWN RESIDUAL OF THE C01-F2 REPAIR (negative witness on the repaired model; values and call
+order confirmed on the real library with the repair patched into `GraphState.update_value` in-process).  (1) `A, B(a = 1), C, D` with `x = True`: the run completes with
+`c = ("C", True)` but `d = ("D", ("C", 1))` — `D` was called once, on the stale `c`.  (2) `A, B(a = [1]), C`
+with `x = [True]`: the run completes with `b = [True]` but `c = ("C", [1])`, exactly the pre-repair
+behaviour of C01-F2 one level down.  In both cases the value not propagated is Python-EQUAL to the one
+that was (`Val.pyEq`), so the run agrees with dependency-order evaluation up to Python `==`, not up to
+identity of the values (`type`, `repr`, `is`). -/
+theorem equal_nested_no_rerun_witness :
+    (run bodySem .sync f3Prog 0 f2Values {}).status = .completed ∧
+    (run bodySem .sync f3Prog 0 f2Values {}).values =
+      [("a", .bool true), ("b", .bool true), ("c", Val.mkTup [.str "C", .bool true]),
+       ("d", Val.mkTup [.str "D", Val.mkTup [.str "C", .int 1]])] ∧
+    callsOf (run bodySem .sync f3Prog 0 f2Values {}).log =
+      [("0:A", [("x", .bool true)]), ("0:B", [("a", .int 1)]), ("0:B", [("a", .bool true)]),
+       ("0:C", [("b", .int 1)]), ("0:C", [("b", .bool true)]), ("0:D", [("c", Val.mkTup [.str "C", .int 1])])] ∧
+    Val.pyEq (Val.mkTup [.str "D", Val.mkTup [.str "C", .int 1]])
+      (Val.mkTup [.str "D", Val.mkTup [.str "C", .bool true]]) = true ∧
+    (run bodySem .sync f4Prog 0 [("x", Val.mkLst [.bool true])] {}).status = .completed ∧
+    (run bodySem .sync f4Prog 0 [("x", Val.mkLst [.bool true])] {}).values =
+      [("a", Val.mkLst [.bool true]), ("b", Val.mkLst [.bool true]),
+       ("c", Val.mkTup [.str "C", Val.mkLst [.int 1]])] ∧
+    callsOf (run bodySem .sync f4Prog 0 [("x", Val.mkLst [.bool true])] {}).log =
+      [("0:A", [("x", Val.mkLst [.bool true])]), ("0:B", [("a", Val.mkLst [.int 1])]),
+       ("0:B", [("a", Val.mkLst [.bool true])]), ("0:C", [("b", Val.mkLst [.int 1])])] := by
+  refine ⟨by decide, by decide, by decide, by decide, by decide, by decide, by decide⟩
 
 end HG.C01
